@@ -253,10 +253,11 @@ def run(ctx, R, tier):
             "names are case-folded/stripped, the regex is compiled with flags, or it is not applied with .match(): %s" % ([unparse(x) for x in folds + rxc + anch][:4]))
     # the printer/parser agreement of URIs is part of the map's fidelity (register stores str(uri), lookup re-parses)
     from ..report import Rules as _Rules
+    from ..report import run_shared as _run_shared
     from . import c19 as _c19
     R19 = _Rules("C19")
     try:
-        _c19.run(ctx, R19, tier)
+        _run_shared(ctx, _c19, R19, tier)
     except AnalysisError as _shared_x:
         # the other property's own anchors are gone on this tree: its check reports that; what it produced before is still shared
         R.note("obligations shared from C19 are incomplete on this tree: %s" % _shared_x)
@@ -417,6 +418,58 @@ def run(ctx, R, tier):
         kws = {k.arg for c in yc for k in c.keywords}
         R.check(len(yc) == 1 and kw in kws and not ({"meta_all", "meta_any"} - {kw}) & kws, "C14-R11", "nsc.%s|keyword" % cmd, "calls yplookup(%s=<tags>)" % kw, g.loc(),
                 "`nsc %s` calls yplookup with %s: it answers the other question (all tags / any tag) on both back-ends alike" % (cmd[4:], sorted(kws & {"meta_all", "meta_any"})))
+
+    # the control tool hands the command-line words to the name server as they are: a name is any string (blanks, tabs and line ends included), so a word that is
+    # stripped, case-folded or otherwise rewritten on the way addresses a different entry than the one the user named
+    hc = ctx.fn("Pyro5.nsc.handle_command")
+    inner = [g for g in p.functions.values() if g.qualname.startswith("Pyro5.nsc.handle_command.") and not isinstance(g.node, ast.Lambda)]
+    if len(inner) < 8:
+        raise AnalysisError("Pyro5.nsc.handle_command: the command functions vanished")
+    PLAIN = {"set", "frozenset", "list", "tuple", "len", "sorted"}
+    bad = None
+    sent = 0
+    for g in [hc] + inner:
+        for st, t, k in stores_in(g.node):
+            if isinstance(t, ast.Name) and t.id in ("args", "cmd") and bad is None:
+                bad = (g, st, "`%s` is re-bound" % t.id)
+        local = {}
+        for st, t, k in stores_in(g.node):
+            if k == "assign" and isinstance(t, ast.Name) and isinstance(st, ast.Assign):
+                local.setdefault(t.id, []).append(st.value)
+        for c in walk_no_nested(g.node) if g is not hc else []:
+            if not (isinstance(c, ast.Call) and isinstance(c.func, ast.Attribute) and isinstance(c.func.value, ast.Name) and c.func.value.id == "namesrv"):
+                continue
+            for a in list(c.args) + [kw.value for kw in c.keywords]:
+                exprs, seen = [a], set()
+                while exprs:
+                    e = exprs.pop()
+                    for n in ast.walk(e):
+                        if isinstance(n, ast.Name) and n.id in local and n.id not in seen:
+                            seen.add(n.id)
+                            exprs.extend(local[n.id])
+                    if "args" not in {n.id for n in ast.walk(e) if isinstance(n, ast.Name)}:
+                        continue
+                    sent += 1
+                    for n in ast.walk(e):
+                        if isinstance(n, ast.Call) and not (isinstance(n.func, ast.Name) and n.func.id in PLAIN) and "args" in {m.id for m in ast.walk(n) if isinstance(m, ast.Name)} and bad is None:
+                            bad = (g, c, "`%s` rewrites a command-line word" % unparse(n, 60))
+                        if isinstance(n, (ast.BinOp, ast.JoinedStr, ast.ListComp, ast.SetComp, ast.GeneratorExp, ast.DictComp)) and "args" in {m.id for m in ast.walk(n) if isinstance(m, ast.Name)} and bad is None:
+                            bad = (g, c, "`%s` computes a new value from a command-line word" % unparse(n, 60))
+    if sent < 8:
+        raise AnalysisError("Pyro5.nsc.handle_command: fewer than 8 command-line words reach the name server (%d)" % sent)
+    R.check(bad is None, "C14-R11", "nsc|command-line-words-reach-the-name-server-verbatim", "names, patterns, uris and tags are passed on exactly as typed (%d argument expressions)" % sent,
+            bad[0].loc(bad[1]) if bad else hc.loc(),
+            ("%s in %s: the name server is asked about a different string than the one on the command line (names are literal: blanks, case and line ends are part of them)" % (bad[2], bad[0].name)) if bad else "")
+
+    # the auto-cleaner is the one caller of remove() inside the name server's own process: it takes out the names it found unreachable, one by one and by NAME - a
+    # prefix or a regex (also one built with re.escape: remove() applies it with match(), which is a prefix match) takes every longer name along with it
+    ac = ctx.fn("Pyro5.nameserver.AutoCleaner.run")
+    rms = [c for c in walk_no_nested(ac.node) if isinstance(c, ast.Call) and isinstance(c.func, ast.Attribute) and c.func.attr == "remove" and "nameserver" in unparse(c.func.value, 60)]
+    if not rms:
+        raise AnalysisError("AutoCleaner.run no longer removes anything from the name server")
+    wide = [c for c in rms if {k.arg for k in c.keywords} - {"name"} or len(c.args) != (0 if c.keywords else 1) or any(isinstance(a, ast.Starred) for a in c.args)]
+    R.check(not wide, "C14-R4", "AutoCleaner|removes-by-exact-name", "the auto-cleaner removes the unreachable names by name (%d call(s))" % len(rms), ac.loc(wide[0]) if wide else ac.loc(),
+            ("`%s`: removal by prefix or regex also removes every registered name that merely starts like an unreachable one (remove() applies a regex with match())" % unparse(wide[0], 90)) if wide else "")
 
     # ---------------------------------------------------------------- R12
     cs = sq.methods.get("_create_schema")
